@@ -87,8 +87,12 @@ class ThresholdOpenList:
                 return wrapped(votes, seats) * quota_fraction
 
             self.quota_function = _quota_fractional
+        elif quota_function is not None:
+            self.quota_function = votelib.component.quota.construct(
+                quota_function
+            )
         else:
-            self.quota_function = quota_function
+            self.quota_function = None
         self.take_higher = take_higher
         self.accept_equal = accept_equal
         self.list_precedence = list_precedence
